@@ -14,6 +14,7 @@
    repaired in /repo: post_unpack_alert now sets alert_info = None when the payload is not a serialized alert). *)
 From PV Require Import Base.Bytes Base.Outcome Base.Varint Gen.GenMessages Model.Streamer Spec.WireC16
   Proofs.StreamerP.
+From Coq Require Import Permutation.
 Local Open Scope N_scope.
 
 (* ---- the regenerated layout table: a typo in /repo re-fails one of these ----------------------------------- *)
@@ -181,6 +182,20 @@ Theorem C16_all_messages_generic : forall msgs, table_ok msgs = true ->
       parse_from_data parse_T parse_B parse_z ip4 ict msgs al post name (wire_message_ fts vals)
         = Ret (combine (map fst layout) vals).
 Proof. exact (named all_messages_generic). Qed.
+(* ---- keyword arguments are matched by NAME (seeded change C16-e1 packed them in the caller's order) ------------- *)
+(* pack(name, **kwargs): any reordering of the keyword arguments (a dict has distinct keys) gives the same bytes or the
+   same exception; more generally the result depends on kwargs only through the lookups of the layout's field names *)
+Theorem C16_pack_keyword_order_independent : forall msgs name (k1 k2 : list (bytes * pyv)),
+  Permutation k1 k2 -> NoDup (map fst k1) ->
+  pack_from_data stream_T stream_B stream_z header_of msgs name k1
+  = pack_from_data stream_T stream_B stream_z header_of msgs name k2.
+Proof. exact (pack_kwargs_order_independent TxV BlockV HdrV stream_T stream_B stream_z header_of). Qed.
+
+Theorem C16_pack_depends_on_lookups_only : forall msgs name (k1 k2 : list (bytes * pyv)),
+  (forall nm, str_lookup k1 nm = str_lookup k2 nm) ->
+  pack_from_data stream_T stream_B stream_z header_of msgs name k1
+  = pack_from_data stream_T stream_B stream_z header_of msgs name k2.
+Proof. exact (pack_lookup_ext TxV BlockV HdrV stream_T stream_B stream_z header_of). Qed.
 End C16.
 
 Section C16_std.
@@ -333,6 +348,8 @@ Print Assumptions C16_six_byte_codec_truncates.
 Print Assumptions C16_struct_roundtrip.
 Print Assumptions C16_parse_fuel_sufficient.
 Print Assumptions C16_all_messages_generic.
+Print Assumptions C16_pack_keyword_order_independent.
+Print Assumptions C16_pack_depends_on_lookups_only.
 Print Assumptions C16_all_messages.
 Print Assumptions C16_parse_with_post_processing.
 Print Assumptions C16_presentation_bool_as_int.
